@@ -170,6 +170,14 @@ void prop_enumerate(void) {
     for (int i = 0; i < nc; i++) {
       int v = cand[i];
       all_routes(v, v, v, (pat){P_PR, 0, 1}, (pat){P_PR, 0, 2}, (pat){P_PR, 0, 9}, vx_tier);
+      /* thin factors: the cubic route is taken for n < 54 (and m < 16) whatever the other dimensions are */
+      { int thin[] = {1, 16, 53};
+        for (int s = 0; s < 3; s++) {
+          all_routes(v, small[s], thin[s], (pat){P_PR, 0, 1}, (pat){P_PR, 0, 2}, (pat){P_PR, 0, 9}, 0);
+          all_routes(thin[s], v, small[s], (pat){P_PR, 0, 1}, (pat){P_PR, 0, 2}, (pat){P_PR, 0, 9}, 0);
+          all_routes(small[s], thin[s], v, (pat){P_PR, 0, 1}, (pat){P_PR, 0, 2}, (pat){P_PR, 0, 9}, 0);
+          all_routes(v, thin[s], v, (pat){P_PR, 0, 1}, (pat){P_PR, 0, 2}, (pat){P_PR, 0, 9}, 0);
+        } }
       for (int s = 0; s < 3; s++) {
         all_routes(v, small[s], small[(s + 1) % 3], (pat){P_PR, 0, 1}, (pat){P_PR, 0, 2}, (pat){P_PR, 0, 9}, 0);
         all_routes(small[s], v, small[(s + 1) % 3], (pat){P_PR, 0, 1}, (pat){P_PR, 0, 2}, (pat){P_PR, 0, 9}, 0);
